@@ -14,9 +14,13 @@ class User:
 
 
     def ask_user_about_deleting_file(self, program_name, path):
-        reply = self.input.read_input(printable(
-            "%s: trash %s '%s'? " % (program_name,
-                                     self.describer.describe(path), path)))
+        try:
+            reply = self.input.read_input(printable(
+                "%s: trash %s '%s'? " % (program_name,
+                                         self.describer.describe(path), path)))
+        except EOFError:
+            # end of input at the prompt is a "no" (like rm -i), not a crash
+            return user_replied_no
         return parse_user_reply(reply)
 
 
